@@ -190,6 +190,30 @@ def _empty_chunk(chunk):
     return len(chunk), nt, fails
 
 
+def _subprefix_chunk(chunk):
+    """the prefix-dependent directory defaults follow THE prefix — the global option; a `prefix` among the default options of a
+    subproject (its own, or given by subproject(default_options:)) is no reason to rewrite them"""
+    from mesonbuild.options import OptionStore, OptionKey
+    fails, nt = [], 0
+    names = ['prefix', 'sysconfdir', 'localstatedir', 'sharedstatedir', 'libdir', 'bindir']
+    for top_prefix, where, sub_prefix in chunk:
+        st = OptionStore(False)
+        st.init_builtins()
+        st.initialize_from_top_level_project_call({OptionKey('prefix'): top_prefix} if top_prefix else {}, {}, {})
+        before = {n: st.get_value_for(OptionKey(n)) for n in names}
+        try:
+            st.initialize_from_subproject_call('sub', {OptionKey('prefix'): sub_prefix} if where == 'call' else {}, {OptionKey('prefix'): sub_prefix} if where == 'own' else {}, {}, {})
+        except Exception as ex:
+            fails.append({'case': {'top_prefix': top_prefix, 'where': where, 'sub_prefix': sub_prefix}, 'stage': 'subprefix', 'detail': f'{type(ex).__name__}: {ex}'})
+            continue
+        after = {n: st.get_value_for(OptionKey(n)) for n in names}
+        nt += 1
+        if after != before:
+            fails.append({'case': {'top_prefix': top_prefix, 'where': where, 'sub_prefix': sub_prefix}, 'stage': 'subprefix',
+                          'detail': f'configuring a subproject whose default options name prefix={sub_prefix!r} changed the top-level values from {before} to {after}'})
+    return len(chunk), nt, fails
+
+
 def _prec_chunk(chunk):
     fails, nt = [], 0
     for kind, mask in chunk:
@@ -436,6 +460,11 @@ def run(REG, tier, seed, jobs):
     parts.append({'name': 'C07/bounded/builtin-values-stored-as-given', 'function': 'OptionStore.initialize_from_top_level_project_call / set_from_configure_command on the real builtin options',
                   'bound': f'{len(EMPTIES)} (builtin option, value) pairs — empty strings for path-list / array / directory options, comma lists, directory spellings — through 4 sources',
                   'evaluations': ev, 'distinct_nontrivial': nt, 'rule': 'every (value, source)', 'exhaustive': True, 'failures': fails})
+    spc = [(tp, w, sp_) for tp in (None, '/usr', '/opt/x') for w in ('call', 'own') for sp_ in ('/usr', '/usr/local', '/opt/y')]
+    ev, nt, fails = pmap(_subprefix_chunk, chunked(iter(spc), 6), jobs)
+    parts.append({'name': 'C07/bounded/subproject-prefix-leaves-global-directories-alone', 'function': 'OptionStore.initialize_from_subproject_call on the real builtin options',
+                  'bound': f'{len(spc)} cases: top-level prefix default / /usr / /opt/x  x  prefix given by subproject(default_options:) or by the subproject itself  x  3 values',
+                  'evaluations': ev, 'distinct_nontrivial': nt, 'rule': 'every case', 'exhaustive': True, 'failures': fails})
     bts = list(BT)
     cases = [(bs, bt, ds, d, o) for bs in (None, 'pd', 'mf', 'cmd') for bt in (bts if bs else ['debug']) for ds in (None, 'pd', 'mf', 'cmd') for d in (['true', 'false'] if ds else ['true'])
              for o in ('fwd', 'rev')]
@@ -467,6 +496,7 @@ def run(REG, tier, seed, jobs):
 
 
 CHECKS = {
+    'C07/bounded/subproject-prefix-leaves-global-directories-alone': (_subprefix_chunk, lambda c: (c['top_prefix'], c['where'], c['sub_prefix'])),
     'C07/bounded/builtin-values-stored-as-given': (_empty_chunk, lambda c: (c['option'], c['given'], c['source'])),
     'C07/bounded/machine-files-in-cross-builds': (_mfile_chunk, lambda c: c['mask']),
     'C07/bounded/per-machine-options-in-cross-builds': (_pm_chunk, lambda c: (c['option'], c['machine'], c['mask'], c['noise'])),
